@@ -58,6 +58,11 @@ func QToProto(q Q) *webserverv1.Q {
 }
 
 func QFromProto(p *webserverv1.Q) (Q, error) {
+	// A request may omit the query, or a child of and/or/not/type/boost: the
+	// generated getters then hand us a nil message.
+	if p == nil {
+		return nil, fmt.Errorf("missing query")
+	}
 	switch v := p.Query.(type) {
 	case *webserverv1.Q_RawConfig:
 		return RawConfigFromProto(v.RawConfig), nil
@@ -98,7 +103,8 @@ func QFromProto(p *webserverv1.Q) (Q, error) {
 	case *webserverv1.Q_Meta:
 		return MetaFromProto(v.Meta)
 	default:
-		panic(fmt.Sprintf("unknown query node %T", p.Query))
+		// Includes a message whose oneof is not set at all.
+		return nil, fmt.Errorf("unknown query node %T", p.Query)
 	}
 }
 
